@@ -171,9 +171,15 @@ struct StreamSim : Harness {
     else if (c < 94) { op.push("rd_eof"); op.push((long long) r.below(r.chance(1, 2) ? 40 : 4000)); }
     else if (c < 96) { op.push("rd_short"); op.push((long long) r.below(r.chance(1, 2) ? 40 : 4000)); op.push((int) r.below(8)); }
     else {
-      static const long long rl[] = {4, 5, 36, 37, B - 1, B, B + 1, B + 3, (1ll << 28) - 1, 1ll << 28, 1ll << 31, (1ll << 32) - 16, (1ll << 32) - 3, (1ll << 32) - 1, (1ll << 32) + 2};
+      static const long long rl[] = {4, 5, 36, 37, B - 1, B, B + 1, B + 3, (1ll << 28) - 1, 1ll << 28, 1ll << 31, (1ll << 32) - 16, (1ll << 32) - 3, (1ll << 32) - 1, (1ll << 32) + 2, 1ll << 32, (1ll << 32) + 1};
       int sl = (int) r.range(0, 9);
-      op.push("inject"); op.push(r.chance(1, 2) ? 0 : pos()); op.push(rl[r.below(15)]); op.push((int) r.range(0, sl + 1)); op.push(sl); op.push((int) r.coin());
+      if (r.chance(1, 4)) {  // many copies of one crafted element: state that a single element only nudges (symbol index, position) is driven to its limits
+        static const long long cn[] = {40, 3000, B + 700, 2 * B + 100};
+        static const long long fl[] = {1ll << 32, (1ll << 32) + 1, (1ll << 32) + 2, 4, 5, B - 3};
+        op.push("flood"); op.push(r.chance(2, 3) ? 0 : pos()); op.push(fl[r.below(6)]); op.push((int) r.range(0, 2)); op.push(cn[r.below(r.chance(1, 2) ? 4 : 2)]);
+      } else {
+      op.push("inject"); op.push(r.chance(1, 2) ? 0 : pos()); op.push(rl[r.below(17)]); op.push((int) r.range(0, sl + 1)); op.push(sl); op.push((int) r.coin());
+      }
     }
     ops.push(op);
   }
@@ -268,6 +274,13 @@ struct StreamSim : Harness {
       put_uint(reflen, wide); put_uint(off, false);
       for (size_t i = 0; i < e.size(); i++) { if (k + i < cur.size()) cur[k + i] = e[i]; else cur.push_back(e[i]); }
       C->count("fault_injected_crafted_element"); return "alter";
+    }
+    if (o == "flood") {  // [tag: no literal, long reference][reflen uint, 5-byte form][offset uint] repeated
+      size_t k = n > 3 ? 3 + modpos(arg(1), n - 3) : 0; uint32_t reflen = (uint32_t) arg(2) - 3u; uint32_t off = (uint32_t) arg(3); int64_t cnt = std::min<int64_t>(std::max<int64_t>(arg(4), 1), 600000);
+      Bytes e; e.push_back(0x1f); e.push_back(0x00); for (int i = 3; i >= 0; i--) e.push_back((uint8_t) (reflen >> (8 * i))); e.push_back((uint8_t) (0x80 | (off & 0x7f)));
+      cur.resize(k); cur.push_back(0x40); cur.push_back('p'); cur.push_back('q');   /* one element with two literal symbols, so that small offsets are defined */
+      for (int64_t c = 0; c < cnt; c++) cur.insert(cur.end(), e.begin(), e.end());
+      C->count("fault_flood_of_crafted_elements"); return "alter";
     }
     if (o == "splice") {  // torn write: prefix of this stream, suffix of the encoding of other data
       Bytes other; Json p = part("rand"); p.set("alpha", 7); p.set("seed", (long long) arg(2)); p.set("len", (long long) std::min<size_t>(enc1.size() * 2 + 16, 600000)); Bytes od; build_part(p, od);
